@@ -12,7 +12,17 @@ VARIABLES l,       \* index of the next event
 vars == <<l, P, inClass>>
 
 \* the quantifier of the property: well-formed programs, extern names pairwise different
-InClass(p) == WellFormed(p) /\ UniqueExternNames(p)
+\* The call-site checkers are syntactic (they need no control flow graph), so the block shape is
+\* wider than Cfg!BlockShapes: a call may also be the SECOND jump of a block, after a conditional
+\* branch (`[CBranch; Call]`, a conditionally executed call; valid per blk.rs).
+BlockShapeC16(blk) ==
+  /\ Len(blk.jmps) <= 2
+  /\ Len(blk.jmps) = 2 => /\ blk.jmps[1].k = "cbranch"
+                          /\ blk.jmps[2].k \in {"branch", "branchind", "return", "call", "callind"}
+InClass(p) ==
+  /\ UniqueTids(p) /\ IntraInSameSub(p) /\ CallTargetsExist(p)
+  /\ \A r \in BlkRefs(p) : BlockShapeC16(BlkAt(p, r))
+  /\ UniqueExternNames(p)
 
 Expected(e) ==
   CASE e.checker = "CWE676" -> W676(P, e.config.symbols)
